@@ -51,6 +51,8 @@ type Case struct {
 	// CAFiles: how the servers' CA reaches the signer: "" = its own file | bundleBA | bundleBClientsA (one file in
 	// which it is the second / third certificate) | two (another CA's file, then its own)
 	CAFiles string `json:",omitempty"`
+	// Accessors: before the first Sign the caller fetches the signer's endpoint and dial-option lists and edits the results
+	Accessors bool `json:",omitempty"`
 }
 
 var (
@@ -161,6 +163,7 @@ func gen(t *rapid.T) Case {
 		Identifier: rapid.SampledFrom([]string{"ssh-user-key", "ssh-user-key", "", "slot é", "<none>"}).Draw(t, "identifier"), // "<none>": the request has no key-meta sub-message at all
 	}
 	c.ViaConf = rapid.Bool().Draw(t, "viaConf")
+	c.Accessors = rapid.IntRange(0, 3).Draw(t, "accessors") == 2
 	c.CAFiles = rapid.SampledFrom([]string{"", "", "", "bundleBA", "bundleBClientsA", "two"}).Draw(t, "caFiles")
 	n := rapid.IntRange(0, 4).Draw(t, "n")
 	for i := 0; i < n; i++ {
@@ -249,6 +252,25 @@ func exec(c Case) (vh.Outcome, error) {
 	}, c.ViaConf && len(ips) > 0)
 	if err != nil {
 		return out, vh.Errf("NewSigner failed for %d endpoints: %v", len(ips), err)
+	}
+	if c.Accessors {
+		// a caller that inspects the signer's endpoint and option lists and edits what it was handed (sorts it, blanks it):
+		// the lists it got are its own, the signer keeps calling the configured endpoints in the configured order
+		eps := signer.Endpoints()
+		for a, b := 0, len(eps)-1; a < b; a, b = a+1, b-1 {
+			eps[a], eps[b] = eps[b], eps[a]
+		}
+		if len(eps) > 0 {
+			eps[0] = "127.0.0.250:1"
+		}
+		opts := signer.DialOptions()
+		for a, b := 0, len(opts)-1; a < b; a, b = a+1, b-1 {
+			opts[a], opts[b] = opts[b], opts[a]
+		}
+		if len(opts) > 1 {
+			opts[0] = opts[1]
+		}
+		out.Classes = append(out.Classes, "accessor-results-edited")
 	}
 	rounds := c.Rounds
 	if rounds < 1 {
@@ -429,7 +451,7 @@ func behaviours(c Case) []string {
 	return b
 }
 
-const rule = "endpoint lists of length 0..4 over 127.0.0.2..5 sharing one port, served by real gRPC-over-TLS Signing servers; per endpoint: signs 1..3 (one in 30: 12 / 40 / 100) certificates (small ones, rarely one of 64 KiB / 130 KiB) with comment shapes (none, one word, several words, non-ASCII, a key-type look-alike, 4 KB, 70 KB) (one entry in twelve is a plain public key instead of a certificate - also as the only entry of a reply) and reply layouts (an extra empty or '#' line at the end, an empty line in front, CR LF line ends, a line of blanks at the end), RPC error with any status code 1..16 (a third of them with the texts real CAs send: maximum validity exceeded, unknown key identifier, too many principals, rate limit hints), empty key text, unparsable key text, no listener, hangs past the per-try deadline (rare); real crypki signer (NewSigner, or NewSignerWithGensignConf from a configuration map) with real TLS material (the servers' CA configured through its own file, as second or third certificate of a bundle file, or as second of two files), retries = 1; 1..3 Sign calls on the same Signer, with endpoints recovering or starting to fail after the first call, at RPC level (status code) and at connection level (an address without listener starts listening; a listening one goes away); a tenth of the cases enter Sign with a cancelled or expired context (deadline failure of every endpoint); request fields generated (0..8 principals, KeyID, validity, identifier - or no key-meta sub-message at all -, extensions, critical options). Oracle: contacted = the prefix up to and including the first signing endpoint, in order, each once, each receiving a request proto.Equal to the input; result = that endpoint's certificates and comments, same length, CA order (plain keys among the entries may or may not be handed on), never an empty success; no signing endpoint or an empty list => non-nil error, never (nil, nil, nil). Non-trivial: a failing endpoint before a signing one, or all failing."
+const rule = "endpoint lists of length 0..4 over 127.0.0.2..5 sharing one port, served by real gRPC-over-TLS Signing servers; per endpoint: signs 1..3 (one in 30: 12 / 40 / 100) certificates (small ones, rarely one of 64 KiB / 130 KiB) with comment shapes (none, one word, several words, non-ASCII, a key-type look-alike, 4 KB, 70 KB) (one entry in twelve is a plain public key instead of a certificate - also as the only entry of a reply) and reply layouts (an extra empty or '#' line at the end, an empty line in front, CR LF line ends, a line of blanks at the end), RPC error with any status code 1..16 (a third of them with the texts real CAs send: maximum validity exceeded, unknown key identifier, too many principals, rate limit hints), empty key text, unparsable key text, no listener, hangs past the per-try deadline (rare); real crypki signer (NewSigner, or NewSignerWithGensignConf from a configuration map) with real TLS material (the servers' CA configured through its own file, as second or third certificate of a bundle file, or as second of two files), retries = 1; in a quarter of the cases the caller first fetches the signer's endpoint and dial-option lists and reverses / overwrites what it was handed; 1..3 Sign calls on the same Signer, with endpoints recovering or starting to fail after the first call, at RPC level (status code) and at connection level (an address without listener starts listening; a listening one goes away); a tenth of the cases enter Sign with a cancelled or expired context (deadline failure of every endpoint); request fields generated (0..8 principals, KeyID, validity, identifier - or no key-meta sub-message at all -, extensions, critical options). Oracle: contacted = the prefix up to and including the first signing endpoint, in order, each once, each receiving a request proto.Equal to the input; result = that endpoint's certificates and comments, same length, CA order (plain keys among the entries may or may not be handed on), never an empty success; no signing endpoint or an empty list => non-nil error, never (nil, nil, nil). Non-trivial: a failing endpoint before a signing one, or all failing."
 
 func TestC17Failover(t *testing.T) {
 	vh.Run(t, vh.Spec[Case]{Property: "C17", Name: "TestC17Failover", Rule: rule, Gen: gen, Exec: exec})
